@@ -460,6 +460,8 @@ def mutate_method(ex, name_node, attr, node, st):
             if not isinstance(tb, VTBDict):
                 raise OutOfReach("ElectionState.tiebreaks of unsupported shape")
             sc = f["scores"]
+            if isinstance(sc, VTBDict) and z3.is_false(z3.simplify(sc.has)):
+                sc = VDict(S.EMPTY_SET, z3.K(S.PyStr, z3.RealVal(0)), S.Real)  # scores={} : the empty dict display
             st.facts.append(z3.And(S.st_round(ref) == f["round_number"].term, S.st_elected(ref) == ex.as_seq(f["elected"], S.CSet).term,
                                    S.st_eliminated(ref) == ex.as_seq(f["eliminated"], S.CSet).term,
                                    S.st_remaining(ref) == ex.as_seq(f["remaining"], S.CSet).term,
